@@ -84,8 +84,10 @@ NatText(n) == IF n < 10 THEN <<48 + n>> ELSE NatText(n \div 10) \o <<48 + (n % 1
 IntText(n) == IF n < 0 THEN <<ch_minus>> \o NatText(0 - n) ELSE NatText(n)             \* str(n)
 IsNatText(s) == s # <<>> /\ AllChars(s, IsDigit)
 (* int(text) as Python/pandas accept it in a column of integers: optional sign, digits; fits 32 bits *)
+txt_maxint == <<50, 49, 52, 55, 52, 56, 51, 54, 52, 55>>      \* "2147483647"
 IsIntText(s) == LET body == IF s # <<>> /\ s[1] \in {ch_plus, ch_minus} THEN Tail(s) ELSE s
-                IN IsNatText(body) /\ Len(body) - LeadCount(body, LAMBDA c : c = 48) <= 9
+                    sig  == DropFirst(body, LeadCount(body, LAMBDA c : c = 48))
+                IN IsNatText(body) /\ (Len(sig) <= 9 \/ (Len(sig) = 10 /\ SeqLeq(sig, txt_maxint)))
 IntVal(s) == LET neg  == s[1] = ch_minus
                  body == IF s[1] \in {ch_plus, ch_minus} THEN Tail(s) ELSE s
                  v    == DigitsVal(DropFirst(body, LeadCount(body, LAMBDA c : c = 48)))
